@@ -75,6 +75,8 @@ def run_scenario(scn: dict, *, eager: bool = False) -> dict:
 
     def fire(act: dict) -> None:
         t = act["t"]
+        if st["tasks"][t].done():
+            return          # (drifted run) nothing to cancel any more
         if act["c"] == "cancel":
             if st["stk"][t]:
                 emit(ev="cancel", t=t, n=1)
